@@ -38,6 +38,7 @@ def configs(draw):
          "opt": draw(st.sampled_from(["sgd", "adam"])), "seed": draw(st.integers(0, 2 ** 31 - 1)),
          "classes": draw(st.integers(2, 4)), "extra": draw(st.integers(0, 3)), "test": draw(st.booleans()),
          "construct_under_no_grad": draw(st.sampled_from([False, False, True])),
+         "peek": draw(st.sampled_from([0, 0, 1, 2])), "cb_sets_eval": draw(st.booleans()),
          "test_under_no_grad": draw(st.booleans())}
     return c
 
@@ -143,6 +144,8 @@ def check_fit(c, rec):
 
     def on_train(m, loader):
         cb_calls["train"].append((m is model, loader is train_loader))
+        if c.get("cb_sets_eval"):
+            m.eval()          # e.g. a monitoring prediction: fit must still train in training mode
 
     def on_val(m, loader):
         cb_calls["val"].append((m is model, loader is val_loader))
@@ -156,6 +159,17 @@ def check_fit(c, rec):
     else:
         trainer = train_mod.Trainer(model, sg)
         trainer.compile(loss_spy, opt, evaluator)
+    for _ in range(c.get("peek", 0)):
+        # a shape check on the first batch(es) before training: the loader must still deliver every batch of every epoch
+        it = iter(train_loader)
+        for _k in range(c["peek"]):
+            try:
+                next(it)
+            except StopIteration:
+                break
+        rec.tag("loader_peeked_before_fit")
+        break
+    events.clear()
     mode_before = tracking_on()
     kw = {}
     if c["cb_train"]:
